@@ -16,9 +16,18 @@ _MODS = {}
 def mods():
     """(instrumented, pristine) module sets, regenerated from /repo's current source once per process"""
     if 'I' not in _MODS:
+        from . import stateguard
         _MODS['I'] = zx.load_instrumented(SRC)
         _MODS['P'] = zx.load_pristine(SRC)
+        stateguard.snapshot(_MODS['I'])
+        stateguard.snapshot(_MODS['P'])
     return _MODS['I'], _MODS['P']
+
+
+def fresh_process_state(M):
+    """module/class level state as in a freshly started process"""
+    from . import stateguard
+    stateguard.restore(M)
 
 
 class Exc:
@@ -145,6 +154,7 @@ def run_zx(h):
     nassert = [0]
 
     def body(e):
+        fresh_process_state(MI)
         inp = h.inputs()
         obs = h.run(MI, inp)
         for label, cond in h.check(inp, obs):
@@ -164,17 +174,19 @@ def run_zx(h):
         if h.xval:
             cinp = zx.ev(pr.model, inp)
             sym_obs = h.obs_key(zx.ev(pr.model, obs))
+            fresh_process_state(MP)
             real_obs = h.obs_key(h.run(MP, cinp))
             if sym_obs != real_obs:
                 raise ZXError('cross-validation mismatch in %s: inputs=%r symbolic=%r pristine=%r'
                               % (h.fullname, _jsonable(cinp), _jsonable(sym_obs), _jsonable(real_obs)))
             res['xval'] += 1
             if res['sample'] is None:
-                res['sample'] = h.describe(cinp, h.run(MP, cinp))
+                res['sample'] = h.describe(cinp, real_obs)
         # (2) counterexamples: replay on pristine code, oracle evaluated natively
         for label, vm in pr.violations:
             m = vm if vm is not None else pr.model
             cinp = zx.ev(m, inp)
+            fresh_process_state(MP)
             cobs = h.run(MP, cinp)
             failed = _eval_checks(h, cinp, cobs)
             res['replayed'] += 1
@@ -218,6 +230,7 @@ def replay_native(h, winp):
     """re-run a stored witness against the pristine code; returns failed labels"""
     MI, MP = mods()
     cinp = _unjson(winp)
+    fresh_process_state(MP)
     cobs = h.run(MP, cinp)
     return _eval_checks(h, cinp, cobs), h.describe(cinp, cobs)
 
